@@ -19,7 +19,7 @@ EXTENDS Naturals, Sequences, FiniteSets, TLC, Json
 CONSTANTS MaxLen, CfgVariants, DeepCfg
 
 Docs == {"c", "t"}                \* c = conftest.py, t = test_t.py next to it
-Versions == [d \in Docs |-> IF d = "c" THEN 1..5 ELSE 1..4]
+Versions == [d \in Docs |-> IF d = "c" THEN 1..6 ELSE 1..4]
 Codes == {"undeclared-fixture", "circular-dependency", "scope-mismatch"}
 
 (* c1: a(); s(a) session-scoped      -> scope-mismatch in c
@@ -27,11 +27,12 @@ Codes == {"undeclared-fixture", "circular-dependency", "scope-mismatch"}
    c3: a()                            -> clean
    c4: (no fixtures)                  -> clean, and `a` is no fixture any more
    c5: a(b); b()                      -> clean: the SAME fixture names as c2, only the dependency edge b -> a is gone
+   c6: a(); b(); s(a, b) session      -> TWO scope-mismatch findings on ONE fixture (same code, same range, two dependencies)
    t1: test_1() uses a in its body    -> undeclared-fixture in t iff a is a visible fixture
    t2: test_1(a)                      -> clean
    t3: f(a) session-scoped fixture    -> scope-mismatch in t iff a (function-scoped) is visible
    t4: unparsable text                -> the findings of t's last valid version stay        *)
-ADefined(ver) == ver["c"] \in {1, 2, 3, 5}
+ADefined(ver) == ver["c"] \in {1, 2, 3, 5, 6}
 
 \* the version whose records are in effect for a document (last valid one)
 Effective(d, v, lastValid) == IF d = "t" /\ v = 4 THEN lastValid ELSE v
@@ -40,11 +41,14 @@ Effective(d, v, lastValid) == IF d = "t" /\ v = 4 THEN lastValid ELSE v
 \* text is unparsable the findings of its last successful analysis are re-published as they were
 Findings(d, ver, tValid, frozenUndecl) ==
     IF d = "c"
-    THEN (IF ver["c"] = 1 THEN {"scope-mismatch"} ELSE {})
+    THEN (IF ver["c"] \in {1, 6} THEN {"scope-mismatch"} ELSE {})
          \cup (IF ver["c"] = 2 THEN {"circular-dependency"} ELSE {})
     ELSE LET v == Effective("t", ver["t"], tValid) IN
          (IF v = 1 /\ (IF ver["t"] = 4 THEN frozenUndecl ELSE ADefined(ver)) THEN {"undeclared-fixture"} ELSE {})
          \cup (IF v = 3 /\ ADefined(ver) THEN {"scope-mismatch"} ELSE {})
+
+\* how many findings of a code the latest content of d has (every finding is published, none twice)
+Multiplicity(d, ver, code) == IF d = "c" /\ ver["c"] = 6 /\ code = "scope-mismatch" THEN 2 ELSE 1
 
 (* Configuration variants: what pyproject.toml contains -> which codes are disabled. *)
 (* A variant is [kind, codes]: kind in                                              *)
